@@ -9,3 +9,5 @@ import Verif.Props.C19
 #print axioms Verif.Props.C19.unconfigured_untouched
 #print axioms Verif.Props.C19.configured_becomes_pending
 #print axioms Verif.Props.C19.drop_unblocks
+#print axioms Verif.Props.C19.foreign_step
+#print axioms Verif.Props.C19.foreign_untouched
